@@ -9,6 +9,7 @@ import Tdgl.Step
 import Tdgl.Operators
 import Tdgl.Update
 import Tdgl.Runner
+import Tdgl.Reader
 import Tdgl.Adaptive
 import Tdgl.Handler
 import Tdgl.Options
@@ -241,6 +242,8 @@ def step (st : St) (line : String) : St × String :=
     | ["run", k, skip, tEnd, fuel], [dts] =>
       let sk : Option Float := if skip == "-" then none else some (f skip)
       (st, showRun (run (stubUpd (floats dts)) (nat k) sk (f tEnd) (nat fuel) 0))
+    | ["times", k], [dts] =>
+      (st, " ".intercalate ((solutionTimes (nat k) (floats dts).toList).map b))
     | ["runold", k, tEnd, fuel], [dts] =>
       match runStageOld (stubUpd (floats dts)) true (nat k) (f tEnd) (nat fuel) 0 0 0 [] [] with
       | none => (st, "fuel")
